@@ -685,9 +685,119 @@ class Normaliser:
 
     def stmts(self, stmts, level=0):
         out = []
-        for st in stmts:
+        i = 0
+        while i < len(stmts):
+            st = stmts[i]
+            if level < self.depth:
+                try:
+                    new = self._expand_verdict(st, stmts[i + 1:], level)
+                except _NoInline:
+                    new = None
+                if new is not None:
+                    out.extend(new)
+                    return out
             out.extend(self.stmt(st, level))
+            i += 1
         return out
+
+    # ---- `verdict = self._helper(); if verdict is A: ...; if verdict is B: ...` -----------------------------------
+    def _sentinels(self):
+        if not hasattr(self, "_sent"):
+            stores: Dict[str, int] = {}
+            for n in ast.walk(self.mod.tree):
+                if isinstance(n, ast.Name) and isinstance(n.ctx, ast.Store):
+                    stores[n.id] = stores.get(n.id, 0) + 1
+            self._sent = {}
+            for st in self.mod.tree.body:
+                if isinstance(st, ast.Assign) and len(st.targets) == 1 and isinstance(st.targets[0], ast.Name) and stores.get(st.targets[0].id) == 1 \
+                        and isinstance(st.value, (ast.Call, ast.Constant)):
+                    self._sent[st.targets[0].id] = st.value
+        return self._sent
+
+    def _same(self, a, b):
+        """True / False when the two result expressions certainly denote the same / different objects, None when unknown."""
+        S_ = self._sentinels()
+
+        def key(e):
+            if isinstance(e, ast.Constant):
+                return ("c", repr(e.value))
+            if isinstance(e, ast.Name) and e.id in S_:
+                v = S_[e.id]
+                return ("c", repr(v.value)) if isinstance(v, ast.Constant) else ("s", e.id)
+            return None
+        ka, kb = key(a), key(b)
+        if ka is None or kb is None:
+            return None
+        return ka == kb
+
+    def _fold(self, stmts, t, v):
+        """copy of ``stmts`` in which tests on the local ``t`` are decided for the known result ``v`` (three-valued)"""
+        def truth(e):
+            if isinstance(e, ast.UnaryOp) and isinstance(e.op, ast.Not):
+                r = truth(e.operand)
+                return None if r is None else (not r)
+            if isinstance(e, ast.Name) and e.id == t and isinstance(v, ast.Constant):
+                return bool(v.value)
+            if isinstance(e, ast.Name) and e.id == t and isinstance(v, ast.Name) and v.id in self._sentinels() and isinstance(self._sentinels()[v.id], ast.Constant):
+                return bool(self._sentinels()[v.id].value)
+            if isinstance(e, ast.Compare) and len(e.ops) == 1 and isinstance(e.ops[0], (ast.Is, ast.IsNot, ast.Eq, ast.NotEq)):
+                l, r = e.left, e.comparators[0]
+                other = r if (isinstance(l, ast.Name) and l.id == t) else (l if (isinstance(r, ast.Name) and r.id == t) else None)
+                if other is None:
+                    return None
+                same = self._same(v, other)
+                if same is None:
+                    return None
+                return same if isinstance(e.ops[0], (ast.Is, ast.Eq)) else (not same)
+            if isinstance(e, ast.BoolOp):
+                vals = [truth(x) for x in e.values]
+                if isinstance(e.op, ast.And):
+                    return False if any(x is False for x in vals) else (True if all(x is True for x in vals) else None)
+                return True if any(x is True for x in vals) else (False if all(x is False for x in vals) else None)
+            return None
+        out = []
+        for st in stmts:
+            st = clone(st)
+            if isinstance(st, ast.If):
+                tv = truth(st.test)
+                if tv is True:
+                    out.extend(self._fold(st.body, t, v))
+                    if _terminates(st.body):
+                        return out
+                    continue
+                if tv is False:
+                    out.extend(self._fold(st.orelse, t, v))
+                    if st.orelse and _terminates(st.orelse):
+                        return out
+                    continue
+                st.body = self._fold(st.body, t, v) or [ast.Pass()]
+                st.orelse = self._fold(st.orelse, t, v)
+            out.append(st)
+            if isinstance(st, (ast.Return, ast.Raise, ast.Continue, ast.Break)):
+                return out
+        return out
+
+    def _expand_verdict(self, st, rest, level):
+        """``t = <helper call>`` whose every result is a constant / module-level sentinel, followed by statements that branch on ``t``: the rest of the block
+        is copied to every return point of the expanded helper with the tests on ``t`` decided there (so no path mixes one result with another's branch)."""
+        if not (isinstance(st, ast.Assign) and len(st.targets) == 1 and isinstance(st.targets[0], ast.Name) and self.callee(st.value) and rest):
+            return None
+        t = st.targets[0].id
+        h = self.callee(st.value)[0]
+        rets = [r for r in walk_local(h) if isinstance(r, ast.Return)]
+        if not rets or not all(r.value is not None and self._same(r.value, r.value) is True for r in rets) or _terminates(h.body) is False:
+            return None
+        tests_t = [x for s_ in rest for x in ast.walk(s_) if isinstance(x, ast.If) and any(isinstance(n, ast.Name) and n.id == t for n in ast.walk(x.test))]
+        if not tests_t:
+            return None
+        stores_t = [x for s_ in rest for x in ast.walk(s_) if isinstance(x, ast.Name) and x.id == t and isinstance(x.ctx, ast.Store)]
+        if stores_t or sum(len(list(ast.walk(s_))) for s_ in rest) > 400:
+            return None
+        pre, body = self._body(st.value)
+        new = _structure_returns(body, lambda v: [ast.Assign(targets=[ast.Name(id=t, ctx=ast.Store())], value=v)] + self._fold(rest, t, v))
+        new = pre + new
+        self._fix(new, st)
+        return self.stmts(new, level + 1)
 
     def _specialise_if(self, st, call, negated, v):
         """the `if <call>:` statement with the call replaced by the returned value v (constant-folded)."""
@@ -716,7 +826,23 @@ class Normaliser:
                     continue
                 find(ch, False)
         find(st)
-        if not lams:
+        # a bound private method handed over as a value (`x.do(self._finish)`) is the closure `lambda: self._finish()` when it takes no argument
+        bound = []
+
+        def find_bound(n):
+            for ch in ast.iter_child_nodes(n):
+                if isinstance(ch, (ast.FunctionDef, ast.AsyncFunctionDef, ast.ClassDef, ast.Lambda)):
+                    continue
+                if isinstance(ch, ast.Call):
+                    for a in ch.args:
+                        if isinstance(a, ast.Attribute) and isinstance(a.value, ast.Name) and a.value.id == "self" and isinstance(a.ctx, ast.Load):
+                            probe = ast.Call(func=a, args=[], keywords=[])
+                            r = self.callee(probe)
+                            if r and r[2] == "method" and len(params(r[0])) == 1 and not r[0].args.vararg and not r[0].args.kwarg:
+                                bound.append(a)
+                find_bound(ch)
+        find_bound(st)
+        if not lams and not bound:
             return None
         defs_ = []
         names = {}
@@ -726,11 +852,24 @@ class Normaliser:
             names[id(lam)] = nm
             defs_.append(ast.FunctionDef(name=nm, args=lam.args, body=[ast.Return(value=lam.body)], decorator_list=[], returns=None, type_comment=None, type_params=[]))
 
+        for a in bound:
+            self.count += 1
+            nm = f"_lam{self.count}"
+            names[id(a)] = nm
+            noargs = ast.arguments(posonlyargs=[], args=[], vararg=None, kwonlyargs=[], kw_defaults=[], kwarg=None, defaults=[])
+            defs_.append(ast.FunctionDef(name=nm, args=noargs, body=[ast.Return(value=ast.Call(func=clone(a), args=[], keywords=[]))], decorator_list=[], returns=None,
+                                         type_comment=None, type_params=[]))
+
         class R(ast.NodeTransformer):
             def visit_Lambda(s_, node):
                 if id(node) in names:
                     return ast.Name(id=names[id(node)], ctx=ast.Load())
                 return node
+
+            def visit_Attribute(s_, node):
+                if id(node) in names:
+                    return ast.Name(id=names[id(node)], ctx=ast.Load())
+                return s_.generic_visit(node)
         st2 = R().visit(st)
         self._fix(defs_ + [st2], st)
         return defs_ + [st2]
@@ -785,10 +924,10 @@ class Normaliser:
                 roots = [st.test] if isinstance(st, ast.If) else [x for x in ast.iter_child_nodes(st) if isinstance(x, ast.expr)]
                 nested = [x for r in roots for x in walk_local(r) if self.callee(x) and not isinstance(x, ast.Lambda)]
                 nested = [x for x in nested if not self._single_expr(x)]
+                # a call inside a comprehension / generator expression / lambda lives in that scope (its arguments are bound there): never hoisted out of it
+                nested = [x for x in nested if not any(isinstance(p, (ast.ListComp, ast.SetComp, ast.DictComp, ast.GeneratorExp, ast.Lambda)) for p in self._ancestors_in(st, x))]
                 if nested:
                     x = nested[0]
-                    if any(isinstance(p, ast.Lambda) for p in self._ancestors_in(st, x)):
-                        return None
                     self.count += 1
                     tmp = f"_ret{self.count}"
                     pre = ast.Assign(targets=[ast.Name(id=tmp, ctx=ast.Store())], value=x)
@@ -1338,6 +1477,7 @@ def mini_call(func, args: Dict[str, object], budget: int = 2000, builtins: Optio
     """Interpret ``func`` (assignments, if/while/for, try/except <Name>, return/break/continue, calls of the given builtins and of methods
     of the Python objects handed in) on concrete or symbolic arguments.  Nothing of the repository is executed by CPython."""
     env = dict(args)
+    frames: List[Optional[list]] = [None]       # per active call: list collecting yielded values (None: not a generator)
     bi = {"iter": iter, "next": next, "len": len, "list": list, "tuple": tuple, "reversed": reversed, "range": range, "enumerate": enumerate,
           "isinstance": isinstance, "str": str, "bytes": bytes, "True": True, "False": False, "None": None}
     bi.update(builtins or {})
@@ -1413,7 +1553,37 @@ def mini_call(func, args: Dict[str, object], budget: int = 2000, builtins: Optio
             return a + b if isinstance(e.op, ast.Add) else a - b
         if isinstance(e, ast.IfExp):
             return ev(e.body) if ev(e.test) else ev(e.orelse)
+        if isinstance(e, ast.Yield):
+            if frames[-1] is None:
+                raise MiniStop("yield outside a generator")
+            frames[-1].append(ev(e.value) if e.value is not None else None)
+            return None
+        if isinstance(e, ast.Lambda):
+            return closure(e, [a.arg for a in e.args.args], [ast.Return(value=e.body)], False)
         raise MiniStop(f"expression {type(e).__name__}")
+
+    def closure(node, pnames, body, is_gen):
+        def call(*a, **kw):
+            nonlocal env
+            if len(a) > len(pnames):
+                raise MiniStop("closure arity")
+            saved = env
+            env = dict(env)                      # reads of enclosing names; writes stay local to the call
+            env.update(dict(zip(pnames, a)))
+            env.update(kw)
+            frames.append([] if is_gen else None)
+            try:
+                try:
+                    run(body)
+                    rv = None
+                except _MiniReturn as r:
+                    rv = r.v
+                out = frames[-1]
+            finally:
+                frames.pop()
+                env = saved
+            return iter(out) if is_gen else rv
+        return call
 
     def assign(t, v):
         if isinstance(t, ast.Name):
@@ -1442,6 +1612,15 @@ def mini_call(func, args: Dict[str, object], budget: int = 2000, builtins: Optio
                     assign(st.target, ev(st.value))
             elif isinstance(st, ast.Return):
                 raise _MiniReturn(ev(st.value) if st.value is not None else None)
+            elif isinstance(st, ast.FunctionDef):
+                if st.decorator_list or st.args.vararg or st.args.kwarg or st.args.kwonlyargs or st.args.defaults:
+                    raise MiniStop("nested function with decorators / defaults")
+                gen = any(isinstance(x, (ast.Yield, ast.YieldFrom)) for x in walk_local(st) if x is not st)
+                env[st.name] = closure(st, [a.arg for a in st.args.args], st.body, gen)
+            elif isinstance(st, ast.AugAssign) and isinstance(st.target, ast.Name) and isinstance(st.op, (ast.Add, ast.Sub)):
+                cur = ev(ast.Name(id=st.target.id, ctx=ast.Load()))
+                v = ev(st.value)
+                env[st.target.id] = cur + v if isinstance(st.op, ast.Add) else cur - v
             elif isinstance(st, ast.If):
                 run(st.body if ev(st.test) else st.orelse)
             elif isinstance(st, ast.While):
